@@ -308,6 +308,7 @@ package registry
 //@   props C12 C13
 //@   safety C19
 //@   requires vr != nil
+//@   axiom basic-type-table: forall(k, 0 <= k && k < len(global("go/types.Typ")) ==> global("go/types.Typ")[k] != nil)
 //@   ensures{C13} user-name-kept: vr.Name() != "" && vr.Name() != "_" && !isReserved(vr.Name() + suffix) ==> s == vr.Name() + suffix
 //@   ensures{C12,C13} user-name-that-the-body-needs-is-suffixed: vr.Name() != "" && vr.Name() != "_" && isReserved(vr.Name() + suffix) ==> s == vr.Name() + suffix + "MoqParam"
 //@   ensures{C12} never-reserved: !isReserved(s)
